@@ -370,3 +370,52 @@ func verifC15B2I(b bool) int {
 	}
 	return 0
 }
+
+// ---- channel mode (conn.resolve with o = true) --------------------------------------------------
+
+// VerifC15Chan is one long-lived connection of the registered Session Host in channel mode.
+type VerifC15Chan struct {
+	E    *VerifC15Env
+	C    *conn
+	Host *Session
+}
+
+// NewChan returns a channel connection whose host is the registered Session of id (nil if none).
+func (e *VerifC15Env) NewChan(id device.ID) *VerifC15Chan {
+	s := e.S.Session(id)
+	if s == nil {
+		return nil
+	}
+	return &VerifC15Chan{E: e, C: &conn{host: s}, Host: s}
+}
+
+// Resolve is the real conn.resolve(…, tags, true): what channelRead does with the tags of every
+// packet it reads.
+func (v *VerifC15Chan) Resolve(tags []uint32) error {
+	return v.C.resolve(v.E.L.log, v.Host, v.E.L, "A", tags, true)
+}
+
+// Redirected lists the Sessions whose outbound queue currently points at this connection.
+func (v *VerifC15Chan) Redirected() []device.ID {
+	var r []device.ID
+	v.E.S.lock.RLock()
+	for _, s := range v.E.S.sessions {
+		if s.chn != nil && s.chn == v.Host.send {
+			r = append(r, s.ID)
+		}
+	}
+	v.E.S.lock.RUnlock()
+	return r
+}
+
+// QueueFor queues a packet for the registered Session of id through the real Session.queue and
+// reports whether it landed in the host's channel (true) or in the Session's own queue.
+func (v *VerifC15Chan) QueueFor(id device.ID, n *com.Packet) (found, viaHost bool) {
+	s := v.E.S.Session(id)
+	if s == nil {
+		return false, false
+	}
+	before := len(v.Host.send)
+	s.queue(n)
+	return true, len(v.Host.send) > before && s != v.Host
+}
